@@ -12,6 +12,8 @@ verus! {
 pub mod time { pub use super::OffsetDateTime; }
 pub assume_specification<T: Ord>[ core::cmp::min::<T> ](a: T, b: T) -> (r: T)
     ensures r == a || r == b, T::obeys_cmp_spec() ==> ((a.cmp_spec(&b) is Greater ==> r == b) && (!(a.cmp_spec(&b) is Greater) ==> r == a));
+pub assume_specification<T: Ord>[ core::cmp::max::<T> ](a: T, b: T) -> (r: T)
+    ensures r == a || r == b, T::obeys_cmp_spec() ==> ((a.cmp_spec(&b) is Greater ==> r == a) && (!(a.cmp_spec(&b) is Greater) ==> r == b));
 impl Uuid { #[verifier::external_body] pub fn new_v4() -> (r: Uuid) { unimplemented!() } }
 // the code's own constants, substituted from the source text on every run
 pub const DEFAULT_AUTH_SESSION_LIMITED_EXPIRY: u32 = @@const:DEFAULT_AUTH_SESSION_LIMITED_EXPIRY@@;
